@@ -21,6 +21,7 @@ var repoDir = func() string {
 	}
 	return "/repo"
 }()
+
 const contractFileName = "zz_contracts_verif.go"
 const stubFileName = "zz_gvc_stubs_verif.go"
 
